@@ -77,7 +77,8 @@ type opWorld struct {
 	sentHB       map[uint64][]hbSeen  // region -> heartbeats sent (epoch, leader), newest last
 	epochHist    map[uint64][]epochAt // region -> epochs PD served, with the step at which they were first observed
 	prevMon      int
-	cmdSent      map[string]int // command content -> step at which PD first sent it
+	deafUntil    map[uint64]time.Time // region -> its stores ignore PD's commands until then (busy / stuck apply)
+	cmdSent      map[string]int       // command content -> step at which PD first sent it
 	curMon       int
 }
 
@@ -108,7 +109,7 @@ func newOpWorld(rc *corepkg, o opWorldOpts) *opWorld {
 		return nil
 	}
 	ow := &opWorld{World: w, streams: map[uint64]pdpb.PD_RegionHeartbeatClient{}, cancels: map[uint64]func(){}, storeUp: map[uint64]bool{},
-		foreign: map[uint64]int{}, foreignAny: map[uint64]int{}, foreignConfs: map[uint64][]foreignConf{}, foreignSeq: map[uint64][]uint64{}, pdSeq: map[uint64]uint64{}, pdSeqHist: map[uint64][]seqAt{}, ops: map[*operator.Operator]*opTrack{}, cmdDelay: o.cmdDelay, hbEvery: o.hbEvery, sentHB: map[uint64][]hbSeen{}, epochHist: map[uint64][]epochAt{}, cmdSent: map[string]int{}}
+		foreign: map[uint64]int{}, foreignAny: map[uint64]int{}, foreignConfs: map[uint64][]foreignConf{}, foreignSeq: map[uint64][]uint64{}, pdSeq: map[uint64]uint64{}, pdSeqHist: map[uint64][]seqAt{}, ops: map[*operator.Operator]*opTrack{}, cmdDelay: o.cmdDelay, hbEvery: o.hbEvery, sentHB: map[uint64][]hbSeen{}, epochHist: map[uint64][]epochAt{}, cmdSent: map[string]int{}, deafUntil: map[uint64]time.Time{}}
 	ow.oc = w.Cl.SimOperatorController()
 	if ow.oc == nil {
 		rc.Anomaly("coordinator not running")
@@ -301,6 +302,10 @@ func (ow *opWorld) recvLoop(id uint64, st pdpb.PD_RegionHeartbeatClient) {
 }
 
 func (ow *opWorld) applyCmd(resp *pdpb.RegionHeartbeatResponse) {
+	if until, ok := ow.deafUntil[resp.GetRegionId()]; ok && time.Now().Before(until) {
+		ow.RC.Extra["cmd_ignored_deaf"]++
+		return
+	}
 	r := ow.M.Regions[resp.GetRegionId()]
 	rec := cmdRecord{step: ow.RC.S.Step, region: resp.GetRegionId(), resp: resp}
 	if r != nil {
